@@ -985,7 +985,7 @@ class _ExtendedSymplectic(_Integrator):
                 return _Solution(times=times_out, states=states_out)
             else:
                 # No event - return full trajectory
-                times_out = t_vals[:trajectory.shape[0]].copy() * fwd
+                times_out = t_vals[:trajectory.shape[0]].copy()
                 return _Solution(times=times_out, states=trajectory)
 
         # Standard non-event path
@@ -998,8 +998,9 @@ class _ExtendedSymplectic(_Integrator):
             c_omega_heuristic=self.c_omega_heuristic,
         )
 
-        # Return times with the intended sign convention (multiplying back).
-        times_out = t_vals.copy() * fwd
+        # Return the requested grid, like every other integrator; the caller
+        # (_propagate_dynsys) applies the direction sign exactly once.
+        times_out = t_vals.copy()
 
         return _Solution(times=times_out, states=trajectory_array)
 
